@@ -441,6 +441,11 @@ def run(ctx):
     # "finishes without an exception": a threshold chain that does not cover the unit interval leaves the proposed
     # tree unbound; a proposal density that degenerates gives nan weights (same rule objects as C08.B / S / F)
     _premises.proposal_chains(ctx)
+    # every SMC pass runs over the order drawn from the tree: it must hold every data point (an order that is too short
+    # ends in an index error or a tree without the missing points) — same rule object as C09.P1-P4
+    from . import C09
+
+    imported(ctx, C09.rule_P)
 
 
 _PG = "phyclone/mcmc/particle_gibbs.py"
